@@ -186,11 +186,12 @@ func tparmBody(line string) h.Result {
 	}
 	var outs []string
 	skip := false
+	hiStr := false
 	for _, c := range calls {
 		f := strings.Fields(c)
 		prog := h.Unhex(f[0])
 		var params []interface{}
-		hiStr := false
+		// hiStr is sticky for the rest of the line: a string stored in a static variable reaches later calls
 		for _, p := range f[1:] {
 			if strings.HasPrefix(p, "s:") {
 				s := h.Unhex(p[2:])
